@@ -50,11 +50,11 @@ fn tok(t: &str, scale: f64) -> f64 {
 
 fn rank_val(r: i64, scale: f64) -> f64 {
     match r {
-        -2 => f64::NEG_INFINITY,
+        -1073741824 => f64::NEG_INFINITY,
         -1 => -scale,
         0 => 0.0,
         1 => scale,
-        2 => f64::INFINITY,
+        1073741824 => f64::INFINITY,
         _ => panic!("rank {r}"),
     }
 }
@@ -249,7 +249,7 @@ pub fn process_line(v: &Value, want: &MWant, rep: &mut Report) {
         return;
     }
     // non-trivial: at least two distinct non-NaN tokens somewhere
-    if specs.iter().any(|s| s["mn"].as_i64() != s["mx"].as_i64() && s["mn"].as_i64() != Some(2)) {
+    if specs.iter().any(|s| s["mn"].as_i64() != s["mx"].as_i64() && s["mn"].as_i64() != Some(1073741824)) {
         rep.nontrivial.insert(hs);
     }
     if rep.nontrivial.contains(&hs) {
